@@ -22,6 +22,7 @@ import hashlib
 import itertools
 import math
 import random
+import traceback
 from concurrent.futures import ProcessPoolExecutor
 
 import numpy
@@ -295,6 +296,20 @@ def _judge(names_on, X_on, names_off, X_off, ranker):
 
 
 def _unit(args):
+    try:
+        return _unit_body(args)
+    except Exception as e:  # nothing may escape a pool worker
+        types, terms = args[0], args[1]
+        try:
+            tlist = _term_strings(types, terms, args[4], args[6], args[9] if len(args) > 9 else None)
+        except Exception:
+            tlist = [repr(terms)]
+        key = (types, tuple(tlist), args[4], args[5], args[9] if len(args) > 9 else None)
+        return 1, set(), [], [("C03.builds", f"oracle-not-applicable:{type(e).__name__}",
+                               f"{type(e).__name__}: {e}\n{traceback.format_exc()[-1500:]}", types, tlist, 0, key)]
+
+
+def _unit_body(args):
     """All orderings (x intercept modes) of one term set for one type tuple."""
     (types, terms, seed, exact, contrast, cluster_by, reverse_within, intercept_modes, perm_limit) = args[:9]
     scheme = args[9] if len(args) > 9 else None
@@ -334,9 +349,16 @@ def _unit(args):
                 continue
             n_eval += 1
             key = (types, tuple(tlist), contrast, cluster_by, scheme)
-            verdict = _judge(names_on, X_on, names_off, X_off, rankers[0])
-            # non-trivial: the unreduced matrix is rank deficient, i.e. reduction had something to do
-            r_off = rankers[0].rank(_canon(names_off, X_off))
+            try:
+                verdict = _judge(names_on, X_on, names_off, X_off, rankers[0])
+                # non-trivial: the unreduced matrix is rank deficient, i.e. reduction had something to do
+                r_off = rankers[0].rank(_canon(names_off, X_off))
+            except Exception as e:
+                # the rank / span computation is not applicable to what was returned (NaN / inf / object cells, ...):
+                # an outcome of this case; the witness program computes the same ranks and fails the same way
+                failures.append(("C03.rank.independent", f"oracle-not-applicable:{type(e).__name__}",
+                                 f"{type(e).__name__}: {e}", types, tlist, 0, key))
+                continue
             if r_off < X_off.shape[1]:
                 keys.add(_digest(key))
             if len(samples) < 1:
